@@ -47,6 +47,13 @@ def main():
         tag = "r6m"
         patch = os.path.join(src, "%s-m%s.diff" % (pid, n))
         demo = os.path.join(src, "%s-m%s_demo.rs" % (pid, n))
+    if "--roundN" in sys.argv:
+        # later rounds: --roundN <round> <agent>: files <PID>-m<n>.* in /tmp/w<round>-<agent>-out
+        rn, k = sys.argv[sys.argv.index("--roundN") + 1], sys.argv[sys.argv.index("--roundN") + 2]
+        src = "/tmp/w%s-%s-out" % (rn, k)
+        tag = "r%sm" % rn
+        patch = os.path.join(src, "%s-m%s.diff" % (pid, n))
+        demo = os.path.join(src, "%s-m%s_demo.rs" % (pid, n))
     if "--demo" in sys.argv:
         demo = sys.argv[sys.argv.index("--demo") + 1]
     if not os.path.exists(WT):
@@ -90,7 +97,7 @@ def main():
         what = " ".join(open(txt).read().split())
     if not needs and os.path.exists(txt):
         needs = "see 'what'"
-    meta = {"property": pid, "origin": "independent sub-agent given only the property text and a scratch worktree" + ("; round 4 (process-level properties only, after all earlier strengthening)" if tag == "r4m" else "") + ("; round 5: adversarial - additionally told, in generic terms, what the strengthened tester drives (corpora, size ladders, nesting contexts, laws) and asked for changes it could still miss" if tag == "r5m" else "") + ("; round 6: given only the property text; asked for faults that need something specific to manifest (unusual input, interleaving, multi-step history, a fault at a particular point, two cooperating sites)" if tag == "r6m" else "") + ("; round 3 (after the size ladders and the other round-2 strengthening were in place)" if tag == "r3m" else "") + ("; round 2: additionally told, in generic terms, that the checker is a corpus + random differential tester with laws, and asked for changes such a tester could miss" if tag == "r2m" else ""),
+    meta = {"property": pid, "origin": "independent sub-agent given only the property text and a scratch worktree" + ("; round 4 (process-level properties only, after all earlier strengthening)" if tag == "r4m" else "") + ("; round 5: adversarial - additionally told, in generic terms, what the strengthened tester drives (corpora, size ladders, nesting contexts, laws) and asked for changes it could still miss" if tag == "r5m" else "") + ("; round 7: as round 6, restricted to faults that need a history, an interleaving, a fault at a particular point or two cooperating sites" if tag == "r7m" else "") + ("; round 6: given only the property text; asked for faults that need something specific to manifest (unusual input, interleaving, multi-step history, a fault at a particular point, two cooperating sites)" if tag == "r6m" else "") + ("; round 3 (after the size ladders and the other round-2 strengthening were in place)" if tag == "r3m" else "") + ("; round 2: additionally told, in generic terms, that the checker is a corpus + random differential tester with laws, and asked for changes such a tester could miss" if tag == "r2m" else ""),
             "what": what, "needs_to_manifest": needs,
             "confirmed": {"baseline_tests_with_patch": "%d passed (cargo test --workspace --no-fail-fast --offline)" % passed,
                           "demo_with_patch": (wl[-1] if wl else "failed to build/run") , "demo_without_patch": ol[-1] if ol else "",
